@@ -82,24 +82,31 @@ def same_group(g, gs):
 def gen_rules(rng, seq, n_rules, groups=False):
     """{pattern: mods | [groups]}; variable rules (groups) have disjoint sites, static rules may overlap"""
     rules, used = {}, set()
+    offered_at = {}      # site -> groups already offered there by earlier variable rules
     for pat in rng.sample(TARGETS, len(TARGETS)):
         if len(rules) >= n_rules:
             break
         if is_zero_width_somewhere(seq, pat):
             continue
         s = set(sites_of(seq, pat))
-        if s & used and (groups or rng.random() < 0.5):
-            continue   # variable rules: disjoint sites; static rules may hit a site twice (both apply, in rule order)
+        if s & used and rng.random() < (0.6 if groups else 0.5):
+            continue   # rules may hit a site twice: static rules both apply (in rule order), variable rules offer the
+            #            union of their groups there
         if not s and rng.random() < 0.7:
             continue
         used |= s
         if groups:
             k = rng.choice([1, 1, 2, 3])
             gs = []
+            already = [g0 for i in s for g0 in offered_at.get(i, [])]
             for _ in range(k):
                 g = rng.sample(MODVALS, rng.choice([1, 1, 2]))
-                if not same_group(g, gs):
+                if not same_group(g, gs) and not same_group(g, already):   # one group is never offered twice at a site
                     gs.append(g)
+            if not gs:
+                continue
+            for i in s:
+                offered_at.setdefault(i, []).extend(gs)
             rules[pat] = gs
         else:
             rules[pat] = rng.sample(MODVALS, rng.choice([1, 1, 2]))
